@@ -1043,6 +1043,9 @@ decl(struct scope *s, struct func *f)
 				scopeputdecl(s, mkdecl(name, DECLTYPE, t, tq, LINKNONE));
 			else if (!typesame(prior->type, t) || prior->qual != tq)
 				error(&tok.loc, "typedef '%s' redefined with different type", name);
+			/* the size expressions of a variably modified type are evaluated where the typedef is (6.8p3) */
+			if (f && t->prop & PROPVM)
+				calcvla(f, t);
 			break;
 		case DECLOBJECT:
 			if (align && align < t->align)
